@@ -78,6 +78,15 @@ CLAIMED = {
             "definitional in the model, floats are the host's IEEE doubles on both sides.",
             "Trusted: Lean kernel, harness+orchestrator+generator. Defects found and repaired: string+boolean concatenation, array "
             "literal double evaluation, cast binding (see known_findings.json).", "DESIGN.md §4 C07"),
+    "C08": ("Lean 4 theorems about an object-model layer mirroring the class runtime (vtable built base-first, findMethod chain walk, "
+            "method bodies run in the declaring class's context, constructor chain, destructor chain, per-class static slots, cost-based "
+            "overload scan, per-argument generic specialisation) for every linear hierarchy / candidate list + exact correspondence: "
+            "programs rendered from random (hierarchy, action list) descriptions must print the model's trace",
+            "Proof on the model for every hierarchy depth, override/super pattern and candidate list; tied to the evaluator and analyser by "
+            "running rendered programs through the real pipeline and comparing every echo line with Obj.programTrace / Obj.pick / Obj.genRun. "
+            "PARTIAL: linear hierarchies; generics modelled only as per-argument specialisation counters.",
+            "Trusted: Lean kernel (core-only), renderer tools/classgen.py (cross-checked by an independent Python oracle), harness+orchestrator. "
+            "Known finding: run-time overload re-resolution from the dynamic class (C08-dynamic-overload).", "DESIGN.md §4 C08"),
 }
 PENDING_REASON = "check not built yet in this revision of /verif (planned: Lean model + correspondence, see DESIGN.md §4)"
 
